@@ -5,7 +5,7 @@ recompile-flag state machine of `Pygom/Canary.lean`.
 request   {"op":"canary", "cfg":"source"|"as_found" (default source),
            "model": <same spec as `assemble`>,
            "history":[ <mutator in the `then` format> | {"op":"set_params","values":["1/2",...]?}
-                       | {"op":"evaluate","name":"ode"} ...]}
+                       | {"op":"evaluate","name":"ode" | an alias such as "jacobian_T" (reported under its target's name)} ...]}
 response  {"stage":"build","err":e}  when the initial definition is rejected, else
           {"steps":[ {"kind":"mutate","ok":b,"ver":k}
                    | {"kind":"set_params","sp":[..]}
@@ -36,7 +36,12 @@ def canaryOpOfJson (j : Json) : Except String Op := do
     let nm ← (fld j "name").getStr?
     match Ev.ofName? nm with
     | some e => pure (.evaluate e [] 0)
-    | none => .error s!"unknown evaluator {nm}"
+    | none =>
+      -- a public alias (`ode_T`, `jacobian_T`, ..., `total_transition`): as the source writes them an alias is the
+      -- evaluation of its target (`AOp.lower`; `Pygom.C08.alias_method_eq_primary`, `arun_lower`)
+      match Alias.ofName? nm with
+      | some a => pure (AOp.lower (.alias a [] 0))
+      | none => .error s!"unknown evaluator {nm}"
   | _ => do pure (.mutate (← mutOfJson j))
 
 def flagsToJson (s : CState) : Json := Json.mkObj (Ev.all.map (fun e => (e.name, Json.bool (s.flag e))))
